@@ -15,7 +15,8 @@ RULE = ("event histories (4..18 events) over {connect request (interface.connect
         "xml-not-well-formed, unknown kind), ping tick, pong (answering / stale id), loop iteration, application send} x options {reconnect "
         "on/off, passive} on the real stack [network, near probe, (protocol layers), interface, top]; after every event the announcements "
         "(connected / disconnected near and far), login attempts, entities, dispatcher creations / closes / writes are compared with the Lean "
-        "model; the oracle checks the property's clauses on the real trace. thorough: all histories up to length 6. distinct = distinct history.")
+        "model; the oracle checks the property's clauses on the real trace. stream 'dispcontract': the real asyncore dispatcher object in the "
+        "connecting / connected state (no network) must answer disconnect / close / connect-event / send with the same callbacks as the dispatcher double. thorough: all histories up to length 6. distinct = distinct history.")
 ASSUMPTIONS = ["dispatcher double implements the asyncore dispatcher's contract (connect -> later handle_connect | handle_error; disconnect -> synchronous "
                "handle_close -> onDisconnected; sendData dropped unless connected); real sockets / DNS / TLS are not exhibited",
                "the keep-alive thread runs on a virtual clock (one real loop iteration per tick); the noise and axolotl layers' reset on DISCONNECTED is C04's / C14's subject"]
